@@ -73,7 +73,7 @@ static const char *op_name(int code)
 }
 
 enum { CFG_TOPO = 0, CFG_NPIPES, CFG_TYPES /* 4 slots */, CFG_UREF_POOL = 6, CFG_UDICT_POOL,
-       CFG_UBUF_POOL, CFG_QLEN, CFG_FAULTS, CFG_TEARDOWN, CFG_PROP, CFG_NSUBS };
+       CFG_UBUF_POOL, CFG_QLEN, CFG_FAULTS, CFG_TEARDOWN, CFG_PROP, CFG_NSUBS, CFG_NOLOOP };
 enum { TOPO_CHAIN = 0, TOPO_DUP, TOPO_QUEUE };
 enum { P_C04 = 4, P_C05 = 5, P_C01 = 1, P_C20 = 20, P_C12 = 12 };
 
@@ -95,14 +95,15 @@ static const char *type_name(int t)
 /* ------------------------------------------------------------ environment */
 static struct umem_mgr *umem;
 static struct udict_mgr *udict_mgr;
-static struct uref_mgr *uref_mgr;
+struct uref_mgr *uref_mgr;
 static struct ubuf_mgr *ubuf_mgr;
 static struct upump_mgr *upump_mgr;
 static uint32_t evseq;
 static int prop;
-static bool stop_checking;      /* a fault fired inside a control command */
+bool stop_checking;      /* a fault fired inside a control command */
 static bool fault_in_op;        /* a fault fired during the current operation */
-static bool skip_getters;       /* second pass of the C20 differential */
+static bool skip_getters;
+static bool noloop;             /* queue topology without any event loop */       /* second pass of the C20 differential */
 static uint64_t obs_hash;       /* hash of everything the sinks and probes saw */
 
 /* ---- model flow definition */
@@ -196,8 +197,8 @@ struct msink {
     int req_registers, req_unregisters;
     bool app_released;          /* the application let go of its own reference */
 };
-static struct msink sinks[MAXS];
-static int nsinks;
+struct msink sinks[MAXS];
+int nsinks;
 
 /* ---- real pipes and their model */
 enum { ST_NONE = 0, ST_VALID, ST_INVALID };
@@ -221,9 +222,9 @@ struct rpipe {
     unsigned max_length;
     int super;                  /* dup sub: index of super */
 };
-static struct rpipe pipes[MAXP];
-static int npipes;
-static int topo;
+struct rpipe pipes[MAXP];
+int npipes;
+int topo;
 /* model of the queue between qsink and qsrc: what was accepted */
 static struct { bool is_fd; struct mfd fd; struct mu u; } mq[MAXREC];
 static int mq_head, mq_tail;
@@ -273,7 +274,10 @@ static int tprobe_catch(struct uprobe *uprobe, struct upipe *upipe, int event, v
     evseq++;
     if (sim_verbose)
         printf("      event %s from node %d\n", event < UPROBE_LOCAL ? uprobe_event_str(event) : "local", p->id);
-    obs_hash = sim_mix(obs_hash, ((uint64_t)p->id << 32) | (uint32_t)event);
+    /* asking for an event loop again is what every control command of the
+     * queue pipes does: not part of the observable history */
+    if (event != UPROBE_NEED_UPUMP_MGR)
+        obs_hash = sim_mix(obs_hash, ((uint64_t)p->id << 32) | (uint32_t)event);
     if (p->ndead && event != UPROBE_DEAD) {
         sim_violation(V_AFTER_DEAD, "node %d throws event %d after dead", p->id, event);
         return UBASE_ERR_NONE;
@@ -302,6 +306,8 @@ static int tprobe_catch(struct uprobe *uprobe, struct upipe *upipe, int event, v
             sim_violation(V_FATAL_UNEXPECTED, "node %d throws fatal although no fault was injected", p->id);
         return UBASE_ERR_NONE;
     case UPROBE_NEED_UPUMP_MGR: {
+        if (noloop)
+            return UBASE_ERR_UNHANDLED;
         struct upump_mgr **mgr_p = va_arg(args, struct upump_mgr **);
         *mgr_p = upump_mgr_use(upump_mgr);
         return UBASE_ERR_NONE;
@@ -463,7 +469,6 @@ static int sink_control(struct upipe *upipe, int command, va_list args)
         if (s->nlodged < 16)
             s->lodged[s->nlodged++] = r;
         s->req_registers++;
-        r->registered = true;
         SIM_PROBE("pipe_request_lodged_at_sink");
         return UBASE_ERR_NONE;
     }
@@ -474,7 +479,6 @@ static int sink_control(struct upipe *upipe, int command, va_list args)
             if (s->lodged[i] == r) {
                 s->lodged[i] = s->lodged[--s->nlodged];
                 s->req_unregisters++;
-                r->registered = false;
                 return UBASE_ERR_NONE;
             }
         sim_violation(V_REQ_ROUTING, "sink %d asked to unregister a request it does not hold", s->id);
@@ -583,13 +587,20 @@ static void m_input(int node, struct mu u)
                 m_output(k, u);
         return;
     case T_QSINK:
-        /* queue model: flow def first, then the buffer; everything is
-         * accepted (spooled while the queue is full) */
+        /* queue model: flow def first, then the buffer; with an event loop
+         * everything is accepted (spooled while the queue is full), without
+         * one whatever does not fit is dropped */
         if (!p->q_fd_sent && p->fd.set) {
             p->q_fd_sent = true;
-            mq[mq_tail % MAXREC].is_fd = true;
-            mq[mq_tail % MAXREC].fd = p->fd;
-            mq_tail++;
+            if (!noloop || mq_tail - mq_head < (int)pipes[1].max_length) {
+                mq[mq_tail % MAXREC].is_fd = true;
+                mq[mq_tail % MAXREC].fd = p->fd;
+                mq_tail++;
+            }
+        }
+        if (noloop && mq_tail - mq_head >= (int)pipes[1].max_length) {
+            SIM_PROBE("pipe_queue_full_without_loop_drop");
+            return;
         }
         mq[mq_tail % MAXREC].is_fd = false;
         mq[mq_tail % MAXREC].u = u;
@@ -925,6 +936,8 @@ static void run_loop(unsigned budget)
  * same point (queue empty, nothing held), then compares */
 static void queue_sync(void)
 {
+    if (noloop)
+        return;                 /* nothing moves before the queue source is destroyed */
     run_loop(1000);
     if (!stop_checking)
         m_queue_deliver_all(1);
@@ -1051,7 +1064,7 @@ static void do_op(const struct sim_op *op)
     case OP_FLUSH: {
         int i = pick_pipe(op->a[0]);
         if (i < 0) break;
-        if (pipes[i].type != T_QSINK || !usable(0) || stop_checking) {
+        if (pipes[i].type != T_QSINK || !usable(0) || stop_checking || noloop) {
             upipe_flush(pipes[i].upipe);
             break;
         }
@@ -1081,9 +1094,9 @@ static void do_op(const struct sim_op *op)
         upipe_flush(pipes[i].upipe);
         if (pending > fits) {
             mq_tail = mq_head + fits;       /* the rest was held, now dropped */
+            pipes[0].q_fd_sent = false;     /* the flow definition is announced again */
             SIM_PROBE("pipe_qsink_flush_dropped_held");
         }
-        pipes[0].q_fd_sent = false;         /* the flow definition is announced again */
         SIM_PROBE("pipe_qsink_flushed");
         break;
     }
@@ -1303,11 +1316,13 @@ static void env_setup(const struct sim_plan *plan)
 
 void req_reset(void);
 void req_teardown(void);
+void req_pre_teardown(bool unregister_first);
 bool req_check_quiescent(const char *when);
 
 static void build_topology(const struct sim_plan *plan)
 {
     topo = (int)((uint64_t)plan->cfg[CFG_TOPO] % 3);
+    noloop = topo == TOPO_QUEUE && ((uint64_t)plan->cfg[CFG_NOLOOP] & 1);
     if (topo == TOPO_CHAIN) {
         npipes = 1 + (int)((uint64_t)(plan->cfg[CFG_NPIPES] - 1) % 4);
         for (int i = 0; i < npipes; i++)
@@ -1337,15 +1352,19 @@ static void build_topology(const struct sim_plan *plan)
         connect(1, 100 + j);
         pipes[0].out = -1;      /* the queue is not an output in the helper's sense */
         npipes = 2;
-        /* attach the event loop on both sides */
-        upipe_attach_upump_mgr(pipes[1].upipe);
-        upipe_attach_upump_mgr(pipes[0].upipe);
+        /* attach the event loop on both sides (or on none) */
+        if (!noloop) {
+            upipe_attach_upump_mgr(pipes[1].upipe);
+            upipe_attach_upump_mgr(pipes[0].upipe);
+        } else
+            SIM_PROBE("pipe_queue_without_event_loop");
     }
 }
 
 static void teardown_and_audit(const struct sim_plan *plan)
 {
     bool clean = !sim_violation_class();
+    req_pre_teardown((uint64_t)plan->cfg[CFG_TEARDOWN] & 2);
     /* let go of every handle, in one of two orders */
     if ((uint64_t)plan->cfg[CFG_TEARDOWN] & 1) {
         for (int i = MAXP - 1; i >= 0; i--)
@@ -1444,8 +1463,10 @@ static uint64_t one_pass(const struct sim_plan *plan)
     return obs_hash;
 }
 
+/* C12 lives in its own file, compiled as part of this unit */
+#include "epipe_req.c"
+
 /* ---------------------------------------------------------------- engine */
-void gen_req(struct sim_rng *r, struct sim_plan *p);
 
 static void gen_common(struct sim_rng *r, struct sim_plan *p, int which)
 {
@@ -1459,8 +1480,9 @@ static void gen_common(struct sim_rng *r, struct sim_plan *p, int which)
     p->cfg[CFG_UDICT_POOL] = sim_rng_below(r, 5);
     p->cfg[CFG_UBUF_POOL] = sim_rng_below(r, 5);
     p->cfg[CFG_QLEN] = sim_rng_below(r, 4);
-    p->cfg[CFG_TEARDOWN] = sim_rng_below(r, 2);
+    p->cfg[CFG_TEARDOWN] = sim_rng_below(r, 4);
     p->cfg[CFG_NSUBS] = sim_rng_below(r, 3);
+    p->cfg[CFG_NOLOOP] = sim_rng_chance(r, 1, 4);
     bool faults = which != P_C20 && which != P_C12 && sim_rng_chance(r, which == P_C01 ? 2 : 1, 3);
     p->cfg[CFG_FAULTS] = faults;
     int n = 5 + (int)sim_rng_below(r, 36);
